@@ -1,10 +1,169 @@
-(* C15 - topological sort.  Only statements closed by [exact] and their assumptions. *)
-From Coq Require Import List ZArith Permutation.
-From Herc Require Import Toposort.Kahn Toposort.KahnProofs.
+(* C15 - topological sort (internal/toposort/toposort.go).
+   Only statements, each closed by [exact], their assumptions, and non-vacuity examples.
+   All theorems are about Herc.Toposort.Model - the executable model that ./check replays the Go
+   implementation against.  Vocabulary (Herc.Toposort.Paths / Reach):
+     has_edge s a b = true      a -> b is an edge of the state (Model.v)
+     node_list s                the nodes, in insertion order
+     spath s a b                non-empty path a ->+ b;   acyclic s := forall n, ~ spath s n n
+     is_walk s l                consecutive elements of l are edges
+     before a b L               L = L1 ++ a :: L2 ++ b :: L3
+     wfb s                      the executable domain predicate (Model.v), also evaluated by the driver
+     valid_ops s ops            every operation meets its precondition: AddNode n with n not the empty
+                                name, AddEdge a b with b a node and a->b not yet an edge, RemoveEdge a b
+                                of an existing edge; everything else unrestricted
+     dirty D ops                nodes that lost an edge and were not re-indexed since
+     nobody                     the empty string, FindCycle's sentinel *)
+From Coq Require Import List ZArith Permutation Bool.
+From Herc Require Import Toposort.Model Toposort.Paths Toposort.Refine Toposort.Reach Toposort.Cycle Toposort.Main.
+From Herc Require Toposort.Kahn Toposort.KahnProofs.
 Import ListNotations.
 Open Scope Z_scope.
 
-Theorem C15_kahn_sound : forall g, wf g -> forall L, toposort g = (L, true) ->
-  Permutation L (nodes g) /\ ordered g L.
-Proof. exact toposort_sound. Qed.
-Print Assumptions C15_kahn_sound.
+(* ---- 1. Toposort on every state of the domain: never panics / runs out of fuel, and computes exactly
+        the abstract Kahn algorithm on the abstraction (children in rank order) ---- *)
+Theorem C15_refines_kahn : forall s, wfb s = true ->
+  snd (toposort s) = SortOk (fst (Kahn.toposort (abs s))) (snd (Kahn.toposort (abs s))).
+Proof. exact toposort_refines. Qed.
+Print Assumptions C15_refines_kahn.
+
+Theorem C15_sound : forall s, wfb s = true -> forall L, snd (toposort s) = SortOk L true ->
+  Permutation L (map fst (outs s)) /\ (forall a b, has_edge s a b = true -> before a b L).
+Proof. exact state_sort_sound. Qed.
+Print Assumptions C15_sound.
+
+Theorem C15_complete : forall s, wfb s = true -> acyclic s -> exists L, snd (toposort s) = SortOk L true.
+Proof. exact state_sort_complete. Qed.
+Print Assumptions C15_complete.
+
+Theorem C15_cyclic : forall s, wfb s = true -> ~ acyclic s -> exists L, snd (toposort s) = SortOk L false.
+Proof. exact state_sort_cyclic. Qed.
+Print Assumptions C15_cyclic.
+
+Theorem C15_success_iff_acyclic : forall s, wfb s = true ->
+  ((exists L, snd (toposort s) = SortOk L true) <-> acyclic s).
+Proof. exact sort_success_iff_acyclic. Qed.
+Print Assumptions C15_success_iff_acyclic.
+
+(* ---- 2. the domain is exactly what valid operation sequences reach ---- *)
+Theorem C15_domain_step : forall D s o, WFd D s -> op_ok s o = true -> WFd (dirty_step D o) (fst (step s o)).
+Proof. exact step_inv. Qed.
+Print Assumptions C15_domain_step.
+
+Theorem C15_domain_wfb : forall s, wfb s = true <-> WFd [] s.
+Proof. exact wfb_spec. Qed.
+Print Assumptions C15_domain_wfb.
+
+Theorem C15_domain_reached : forall ops,
+  valid_ops empty ops = true -> dirty [] ops = [] -> wfb (fst (run empty ops)) = true.
+Proof. exact reach_wfb. Qed.
+Print Assumptions C15_domain_reached.
+
+Theorem C15_domain_at_sort : forall ops1 ops2,
+  valid_ops empty (ops1 ++ OSort :: ops2) = true -> dirty [] ops1 = [] -> wfb (fst (run empty ops1)) = true.
+Proof. exact reach_wfb_at_sort. Qed.
+Print Assumptions C15_domain_at_sort.
+
+Theorem C15_remove_then_reindex : forall s a b, wfb s = true -> has_edge s a b = true ->
+  wfb (reindex (fst (remove_edge s a b)) a) = true.
+Proof. exact wfb_remove_reindex. Qed.
+Print Assumptions C15_remove_then_reindex.
+
+(* ---- the property over all valid operation sequences (the observation the harness records) ---- *)
+Theorem C15_run_sort : forall ops, valid_ops empty ops = true -> dirty [] ops = [] ->
+  forall s, s = fst (run empty ops) ->
+  exists L ok, snd (step s OSort) = RSort (SortOk L ok) /\
+    (ok = true <-> acyclic s) /\
+    (ok = true -> Permutation L (node_list s) /\ forall a b, has_edge s a b = true -> before a b L).
+Proof. exact run_sort_correct. Qed.
+Print Assumptions C15_run_sort.
+
+(* ---- 3. FindCycle, for every iteration order [ord] of Go's maps ---- *)
+Theorem C15_cycle_real : forall (ord : Z -> list Z -> list Z), (forall n l, Permutation (ord n l) l) ->
+  forall s seed, is_node s nobody = false ->
+  find_cycle ord s seed <> [] -> cycle_ok s seed (find_cycle ord s seed) = true.
+Proof. exact find_cycle_real_perm. Qed.
+Print Assumptions C15_cycle_real.
+
+Theorem C15_cycle_ok_spec : forall s seed c,
+  cycle_ok s seed c = true <-> exists r, c = seed :: r /\ is_walk s (seed :: r ++ [seed]).
+Proof. exact cycle_ok_spec. Qed.
+Print Assumptions C15_cycle_ok_spec.
+
+Theorem C15_cycle_found : forall ord, (forall n l, Permutation (ord n l) l) ->
+  forall s seed, is_node s nobody = false -> spath s seed seed -> find_cycle ord s seed <> [].
+Proof. exact find_cycle_found. Qed.
+Print Assumptions C15_cycle_found.
+
+Theorem C15_cycle_emptiness_any_order : forall ord, (forall n l, Permutation (ord n l) l) ->
+  forall s seed, is_node s nobody = false ->
+  (find_cycle ord s seed = [] <-> find_cycle id_ord s seed = []).
+Proof. exact cycle_emptiness_any_order. Qed.
+Print Assumptions C15_cycle_emptiness_any_order.
+
+Theorem C15_run_cycle : forall ops, valid_ops empty ops = true ->
+  forall s, s = fst (run empty ops) ->
+  forall ord, (forall n l, Permutation (ord n l) l) -> forall seed,
+    (find_cycle ord s seed <> [] <-> spath s seed seed) /\
+    (find_cycle ord s seed <> [] ->
+       cycle_ok s seed (find_cycle ord s seed) = true /\
+       exists r, find_cycle ord s seed = seed :: r /\ is_walk s (seed :: r ++ [seed])).
+Proof. exact run_cycle_correct. Qed.
+Print Assumptions C15_run_cycle.
+
+Theorem C15_cyclic_reported_and_found : forall s, wfb s = true -> is_node s nobody = false ->
+  forall seed, spath s seed seed ->
+  (exists L, snd (toposort s) = SortOk L false) /\
+  forall ord, (forall n l, Permutation (ord n l) l) ->
+    exists r, find_cycle ord s seed = seed :: r /\ is_walk s (seed :: r ++ [seed]).
+Proof. exact cyclic_reported_and_found. Qed.
+Print Assumptions C15_cyclic_reported_and_found.
+
+(* ---- 4. determinism: the model is a function of the operation sequence, and the order returned by a
+        sort is a function of the abstract graph (node insertion order + children in rank order) alone.
+        That the Go code - which iterates over maps - computes this function is what the correspondence
+        check tests (5 runs on fresh copies per Sort must all give the model's answer). ---- *)
+Theorem C15_deterministic : forall ops1 ops2, ops1 = ops2 -> run empty ops1 = run empty ops2.
+Proof. exact run_deterministic. Qed.
+Print Assumptions C15_deterministic.
+
+Theorem C15_sort_depends_on_abs : forall s1 s2, wfb s1 = true -> wfb s2 = true -> abs s1 = abs s2 ->
+  snd (toposort s1) = snd (toposort s2).
+Proof. exact sort_depends_on_abs. Qed.
+Print Assumptions C15_sort_depends_on_abs.
+
+(* ---- non-vacuity: the hypotheses hold on concrete non-trivial operation sequences ---- *)
+(* a DAG with a removal followed by re-indexing: 1->2 (removed), 1->3, 3->2, 1->4, then 4->2 *)
+Definition ex_dag : list op :=
+  [OAddNode 2; OAddNode 1; OAddNode 3; OAddNode 4; OAddEdge 1 2; OAddEdge 1 3; OAddEdge 3 2; OAddEdge 1 4;
+   ORemoveEdge 1 2; OReindex 1; OAddEdge 4 2].
+(* a cycle 1->2->3->1 with a tail 3->4 *)
+Definition ex_cyc : list op :=
+  [OAddNode 1; OAddNode 2; OAddNode 3; OAddNode 4; OAddEdge 1 2; OAddEdge 2 3; OAddEdge 3 1; OAddEdge 3 4].
+
+Example ex_dag_in_domain :
+  valid_ops empty ex_dag = true /\ dirty [] ex_dag = [] /\ wfb (fst (run empty ex_dag)) = true /\
+  snd (toposort (fst (run empty ex_dag))) = SortOk [1; 3; 4; 2] true.
+Proof. vm_compute. repeat split. Qed.
+
+Example ex_dag_acyclic : acyclic (fst (run empty ex_dag)).
+Proof. apply (C15_success_iff_acyclic _ eq_refl). exists [1; 3; 4; 2]. vm_compute. reflexivity. Qed.
+
+Example ex_dirty_outside_domain :
+  valid_ops empty (firstn 9 ex_dag) = true /\ dirty [] (firstn 9 ex_dag) = [1] /\
+  wfb (fst (run empty (firstn 9 ex_dag))) = false.
+Proof. vm_compute. repeat split. Qed.
+
+Example ex_cyc_in_domain :
+  valid_ops empty ex_cyc = true /\ dirty [] ex_cyc = [] /\ wfb (fst (run empty ex_cyc)) = true /\
+  is_node (fst (run empty ex_cyc)) nobody = false /\
+  snd (toposort (fst (run empty ex_cyc))) = SortOk [] false /\
+  find_cycle id_ord (fst (run empty ex_cyc)) 2 = [2; 3; 1] /\
+  find_cycle (fun _ l => rev l) (fst (run empty ex_cyc)) 2 = [2; 3; 1] /\
+  find_cycle id_ord (fst (run empty ex_cyc)) 4 = [].
+Proof. vm_compute. repeat split. Qed.
+
+Example ex_cyc_cyclic : ~ acyclic (fst (run empty ex_cyc)).
+Proof.
+  intros H. apply (H 1). apply (spath_cons _ 1 2 1); [reflexivity|].
+  apply (spath_cons _ 2 3 1); [reflexivity|]. apply spath_one. reflexivity.
+Qed.
